@@ -23,12 +23,14 @@ def _check_backref(r, s2, dec, out, form, key, rel_c, decl, ref_block, params, l
                   '%s token: encoder emits %d byte(s) but the decoder branch %s consumes %d (a format marker bit tested by the decoder is not fixed by the encoder, or the forms disagree)' % (form, len(out), path, dec.consumed))
         return
     mem = [c for c in dec.calls if c[0] in ('memcpy', 'memmove', '__builtin_memcpy')]
-    if not mem:
+    if not mem and not getattr(dec, 'loops', 0):
         r.violate(key + ':no-copy', rel_c, decl[0].line, 'decoder back-reference block performs no memcpy on branch %s' % path)
         return
+    if getattr(dec, 'loops', 0):
+        mem = []        # a copy loop: sizes and extents of what it copies are decided by C12-EXTENT (a size that depends on the loop counter is unknown here)
     # the amount the output position advances by is the decoded match length
     adv = [(v, a) for v, lst in dec.advances.items() for (op, a, nm) in lst if op == '+' and v.startswith('out')]
-    mav = adv[-1][1] if adv else mem[-1][1][2]
+    mav = adv[-1][1] if adv else mem[-1][1][2] if mem else None
     mlin = s2.root(s2.as_lin(mav) or mav.lin) if mav is not None else None
     if mlin != (ln, 0):
         r.violate(key + ':match-length', rel_c, decl[0].line,
@@ -65,8 +67,53 @@ def _check_backref(r, s2, dec, out, form, key, rel_c, decl, ref_block, params, l
                   '%s token: the decoder reconstructs end offset %s but the encoder stored %s — offset bit fields / bias / range guard disagree (%r)' % (form, elin, s2.root((offend, 0)), s2.norm(eav)))
 
 
+def _loop_tolerant_cabs():
+    from ..engine import cabs
+    from ..engine.absint import c_walk, c_name
+
+    class LoopTolerant(cabs.CAbs):
+        """CAbs that steps over a loop inside the analysed block: every variable the loop assigns becomes unknown, its calls are not recorded.
+        What a copy loop does to the output is decided by C12-EXTENT; C12-BITS keeps deciding the fields (branch, consumed bytes, offset, length)."""
+        loops = 0
+
+        def clone(self):
+            c = cabs.CAbs.clone(self)
+            c.__class__ = LoopTolerant
+            c.loops = self.loops
+            return c
+
+        def skip_loop(self, s):
+            self.loops += 1
+            for n in c_walk(s):
+                k = n.get('kind')
+                nm = None
+                if k == 'CompoundAssignOperator' or (k == 'BinaryOperator' and n.get('opcode') == '=') or (k == 'UnaryOperator' and n.get('opcode') in ('++', '--')):
+                    nm = c_name(n['inner'][0])
+                elif k == 'VarDecl':
+                    nm = n.get('name')
+                if nm:
+                    self.env[nm] = AV()
+                if k == 'ArraySubscriptExpr' and c_name(n['inner'][0]) == self.input_name:
+                    raise AnalysisError('the decoder reads the input inside a loop nested in the token step')
+
+        def _seq(self, stmts):
+            for i, s in enumerate(stmts):
+                k = s.get('kind')
+                if k in ('IfStmt', 'CompoundStmt', 'ReturnStmt'):
+                    break       # the base class flattens / forks these and calls _seq again with the rest of the list: the loop is found there
+                if k in ('WhileStmt', 'ForStmt', 'DoStmt'):
+                    outs = []
+                    for cur in (cabs.CAbs._seq(self, stmts[:i]) if i else [self]):      # simple statements only: one state
+                        cur.skip_loop(s)
+                        outs += cur._seq(stmts[i + 1:])
+                    return outs
+            return cabs.CAbs._seq(self, stmts)
+    return LoopTolerant
+
+
 def lzss_rules(ctx):
     from ..engine import cabs
+    _LoopTolerantCAbs = _loop_tolerant_cabs()
     from ..engine.absint import clang_function_ast, c_walk, c_strip, c_name
     from ..engine.pyindex import walk_no_nested
     rel_py, rel_c = 'Cython/LZSS.py', 'Cython/Utility/StringTools.c'
@@ -138,8 +185,7 @@ def lzss_rules(ctx):
     decl = [d for d in ctx.cat.decls.get('__pyx_lzss_decompress', []) if d.kind == 'func']
     if not decl:
         raise AnalysisError('__pyx_lzss_decompress not found')
-    head = 'static size_t __pyx_lzss_decompress(%s) ' % ', '.join(decl[0].params)
-    fast = ctx.memo('sC12.clang_decoder', lambda: clang_function_ast('#define CYTHON_UNUSED\n#define CYTHON_SMALL_CODE\n' + head + decl[0].body + '\n', '__pyx_lzss_decompress'))
+    fast = _decoder_ast(ctx)
     body = [c for c in fast['inner'] if c.get('kind') == 'CompoundStmt'][0]
     params = [c['name'] for c in fast['inner'] if c.get('kind') == 'ParmVarDecl']
     srcname = params[0]
@@ -173,7 +219,7 @@ def lzss_rules(ctx):
             if av.lo is None or av.lo < 0 or av.hi is None or av.hi > 255:
                 r.violate(key + ':byte%d-range' % i, rel_py, e.where,
                           'encoder emits a value in %s..%s as byte %d of a %s token: bytearray.append() needs 0..255 (assuming match length <= %d)' % (av.lo, av.hi, i, form, maxlen))
-        dec0 = cabs.CAbs(s2, [e.av for e in out], srcname)
+        dec0 = _LoopTolerantCAbs(s2, [e.av for e in out], srcname)
         if fl.lo == 1:
             for dec in dec0.run_all(lit_block):
                 if dec.consumed != len(out) or len(out) != 1:
@@ -187,21 +233,10 @@ def lzss_rules(ctx):
         r.violate('LZSS:forms', rel_py, loop.lineno, 'only %d token forms found in the encoder (expected literal + 3 back-reference encodings)' % nforms)
 
     # ---- structural clauses of the decoder loop
-    r2 = Rule('C12-STRUCT', 'decoder: copy size equals the output advance; output-full test follows every token; the caller compares the consumed length with the compressed length; '
-              'flag byte shift register agrees (encoder fills from bit 7 shifting right, decoder reads bit 0 shifting right, 8 tokens per flag byte)', floor=4)
-    # (1) memcpy size == out advance
-    r2.inst('decoder:copy-size')
-    ok = False
-    for n in c_walk(ref_block):
-        if n.get('kind') == 'CallExpr' and c_name(n['inner'][0]) in ('memcpy', 'memmove'):
-            size = c_name(n['inner'][3])
-            dstbase = [c_name(x) for x in c_walk(n['inner'][1]) if c_name(x)]
-            adv = [c_name(x['inner'][1]) for x in c_walk(ref_block) if x.get('kind') == 'CompoundAssignOperator' and x.get('opcode') == '+=' and c_name(x['inner'][0]) in dstbase]
-            ok = size is not None and size in adv
-            if not ok:
-                r2.violate('StringTools.__pyx_lzss_decompress:copy-size', rel_c, decl[0].line,
-                           'memcpy into the output copies %r bytes but the output position advances by %s: bytes beyond the advance are written (possibly past the end of the buffer)' % (
-                               size or 'a constant/expression', adv))
+    r2 = Rule('C12-STRUCT', 'decoder: output-full test follows every token; the caller compares the consumed length with the compressed length; '
+              'flag byte shift register agrees (encoder fills from bit 7 shifting right, decoder reads bit 0 shifting right, 8 tokens per flag byte)', floor=3)
+    # (1) copy size == output advance: decided by C12-EXTENT (rule_extent: every store of a token against the token's slice of the output and the room left),
+    #     which replaced the comparison of the names of the memcpy size and the `+=` operand that stood here (it reported every copy loop / tail copy)
     # (2) bound test after every token: in the inner while body, the statement after the token if is `if (out_pos >= dst_len) return`
     r2.inst('decoder:bound-test')
     inner_while = None
@@ -640,8 +675,7 @@ def rule_literal(ctx):
     decl = [d for d in ctx.cat.decls.get('__pyx_lzss_decompress', []) if d.kind == 'func']
     if not decl:
         raise AnalysisError('__pyx_lzss_decompress not found')
-    head = 'static size_t __pyx_lzss_decompress(%s) ' % ', '.join(decl[0].params)
-    fast = ctx.memo('sC12.clang_decoder', lambda: clang_function_ast('#define CYTHON_UNUSED\n#define CYTHON_SMALL_CODE\n' + head + decl[0].body + '\n', '__pyx_lzss_decompress'))
+    fast = _decoder_ast(ctx)
     body = [c2 for c2 in fast['inner'] if c2.get('kind') == 'CompoundStmt'][0]
     params = [c2['name'] for c2 in fast['inner'] if c2.get('kind') == 'ParmVarDecl']
     tok_if = None
@@ -683,8 +717,1065 @@ def rule_literal(ctx):
         if nm not in inv:
             r.violate('StringTools.__pyx_lzss_decompress:return', STC, decl[0].line,
                       'the decoder returns %s, which is not the position in the compressed input (%s): the caller compares the result with compressed_length and rejects every stream' % (nm, '/'.join(sorted(inv))))
-    if len(stores) != 1 or incs != 1 or not any(c_name(x) == outv for x in c_walk(c_strip(stores[0]['inner'][0])['inner'][1])):
-        r.violate('StringTools.__pyx_lzss_decompress:literal', STC, decl[0].line,
-                  'the literal branch of the decoder makes %d store(s) into %s and advances %s %d time(s): a literal token must store one byte at the output position and advance it by one' % (
-                      len(stores), params[1], outv, incs))
+    # what a literal step does to the output: from the symbolic execution of the token step (see C12-EXTENT), not from the spelling of the store
+    paths = []
+    try:
+        token_footprint(fast, paths)
+    except Unmodellable as x:
+        raise AnalysisError('C12-LIT cannot model the token step of the decoder: %s' % x)
+    lits = [p for p in paths if p[0] == 'literal']
+    if not lits:
+        r.violate('StringTools.__pyx_lzss_decompress:literal', STC, decl[0].line, 'no path of the token step stores an input byte into the output: literal tokens are not decoded')
+    for kind, adv, ws, ex in lits:
+        good = adv.const() == 1 and any(rel.const() == 0 and n.const() == 1 and src[0] == 'in' and src[1].key() == (0, ((('B', 0), 1),)) for rel, n, src, what in ws)
+        if not good:
+            r.violate('StringTools.__pyx_lzss_decompress:literal', STC, decl[0].line,
+                      'the literal branch of the decoder advances %s by %r and stores %s: a literal token must store its one input byte at the output position and advance it by one' % (
+                          outv, adv, '; '.join('%s of %r byte(s) at offset %r (%s)' % (what, n, rel, 'input byte' if src[0] == 'in' else 'not an input byte') for rel, n, src, what in ws) or 'nothing'))
+            break
+    return r
+
+
+# =====================================================================================================
+# C12-EXTENT — memory footprint of one decoder token (round 6)
+# =====================================================================================================
+"""`__pyx_lzss_decompress` does not test the output buffer before it copies: it relies on the stream being the compressor's,
+whose tokens add up to exactly `dst_len` bytes.  What the property needs from the decoder is therefore, for EVERY token
+the format can express and every amount R of room left in the output (R >= the token's advance, the well-formedness of
+the stream):
+
+  write-extent   every store into the output lies in [out_pos, out_pos + advance) - or, when it goes beyond the token's
+                 slice ("wild copy"), the branch conditions that dominate it prove that it still ends inside the buffer;
+  coverage       the stores of a token cover its whole slice (no byte of the result is left unwritten);
+  read-source    a copy out of the output reads only bytes below its own destination (already produced, not overlapping);
+  displacement   all copies of one token use one distance between source and destination;
+  stop           the step returns exactly when the buffer is full (R == advance), not earlier and not later.
+
+Decided by symbolic execution of the token step (the innermost loop of the decoder that touches both the input and the
+output) on clang's AST.  Values are linear forms over: the positions at the start of the step, the base pointers, `dst_len`,
+the input bytes of the token and atoms for non-linear sub-expressions of input bytes (masks, shifts).  A branch on input bytes
+splits the byte's value set (exactly, by tabulating the condition over all 256 values); a branch that compares a position
+with `dst_len` splits on R and is recorded as a constraint; a loop inside the step (a block / byte copy loop) is run
+concretely for every value of the input bytes its condition depends on.  At the end of each path every obligation is
+evaluated for every value of the bytes it depends on (a complete finite domain: <= 65536 combinations, otherwise a bound by
+interval arithmetic, otherwise ANALYSIS-ERROR) and for the smallest R the path admits.  Nothing of the repository is executed."""
+
+import itertools
+
+
+class Unmodellable(Exception):
+    pass
+
+
+_FULL = frozenset(range(256))
+_UNSIGNED = {'uint8_t': 8, 'unsigned char': 8, 'uint16_t': 16, 'unsigned short': 16, 'uint32_t': 32, 'unsigned int': 32, 'unsigned': 32,
+             'uint64_t': 64, 'size_t': 64, 'unsigned long': 64, 'unsigned long long': 64, 'uintptr_t': 64}
+_SIGNED = {'int8_t': 8, 'signed char': 8, 'char': 8, 'int16_t': 16, 'short': 16, 'int32_t': 32, 'int': 32, 'int64_t': 64, 'long': 64, 'long long': 64,
+           'Py_ssize_t': 64, 'ssize_t': 64, 'ptrdiff_t': 64, 'intptr_t': 64}
+_COPY = {'memcpy', 'memmove', '__builtin_memcpy', '__builtin_memmove'}
+_HINTS = {'likely', 'unlikely', '__builtin_expect'}
+_NONLIN = {'&', '|', '^', '<<', '>>', '*', '/', '%'}
+
+
+def _apply(op, a, b):
+    if op == '&':
+        return a & b
+    if op == '|':
+        return a | b
+    if op == '^':
+        return a ^ b
+    if op == '<<':
+        if b < 0 or b > 64:
+            raise Unmodellable('shift by %d' % b)
+        return a << b
+    if op == '>>':
+        if b < 0:
+            raise Unmodellable('shift by %d' % b)
+        return a >> b
+    if op == '*':
+        return a * b
+    if op in '/%':
+        if b == 0:
+            raise Unmodellable('division by zero')
+        q = abs(a) // abs(b) * (1 if (a >= 0) == (b >= 0) else -1)      # C truncates towards zero
+        return q if op == '/' else a - q * b
+    raise Unmodellable('operator %s' % op)
+
+
+class Lin:
+    """c + sum(coef * symbol).  Symbols: 'D' / 'S' / 'L' (output base, input base, dst_len), ('V', name) value of a variable at the start of the step,
+    ('B', k) input byte k of the token, ('A', op, key, key) / ('C', bits, key) non-linear atom over other values, ('M', n) a byte read from the output, ('U', n) unknown."""
+    __slots__ = ('c', 't')
+
+    def __init__(self, c=0, t=None):
+        self.c, self.t = c, (t or {})
+
+    def key(self):
+        return (self.c, tuple(sorted(self.t.items(), key=repr)))
+
+    @staticmethod
+    def of(key):
+        return Lin(key[0], dict(key[1]))
+
+    def add(self, o, k=1):
+        t = dict(self.t)
+        for s, v in o.t.items():
+            nv = t.get(s, 0) + k * v
+            if nv:
+                t[s] = nv
+            else:
+                t.pop(s, None)
+        return Lin(self.c + k * o.c, t)
+
+    def scale(self, k):
+        return Lin(self.c * k, {s: v * k for s, v in self.t.items()} if k else {})
+
+    def const(self):
+        return self.c if not self.t else None
+
+    def __repr__(self):
+        def nm(s):
+            if isinstance(s, str):
+                return {'D': 'dst', 'S': 'src', 'L': 'dst_len'}.get(s, s)
+            if s[0] == 'V':
+                return s[1]
+            if s[0] == 'B':
+                return 'byte%d' % s[1]
+            if s[0] == 'A':
+                return '(%r %s %r)' % (Lin.of(s[2]), s[1], Lin.of(s[3]))
+            if s[0] == 'C':
+                return '(uint%d)(%r)' % (s[1], Lin.of(s[2]))
+            return '%s%d' % (s[0].lower(), s[1])
+        parts = ['%s%s' % ('' if v == 1 else '-' if v == -1 else '%d*' % v, nm(s)) for s, v in sorted(self.t.items(), key=repr)]
+        if self.c or not parts:
+            parts.append(str(self.c))
+        return ' + '.join(parts).replace('+ -', '- ')
+
+
+def _sym_deps(sym, out, opaque):
+    """input bytes a symbol depends on -> out; symbols that cannot be enumerated -> opaque"""
+    if isinstance(sym, str) or sym[0] in ('V', 'M', 'U'):
+        opaque.add(sym)
+    elif sym[0] == 'B':
+        out.add(sym[1])
+    elif sym[0] == 'A':
+        for k in (sym[2], sym[3]):
+            for s, _ in k[1]:
+                _sym_deps(s, out, opaque)
+    elif sym[0] == 'C':
+        for s, _ in sym[2][1]:
+            _sym_deps(s, out, opaque)
+
+
+def _deps(lin):
+    out, opaque = set(), set()
+    for s in lin.t:
+        _sym_deps(s, out, opaque)
+    return out, opaque
+
+
+def _key_value(key, asg):
+    v = key[0]
+    for s, c in key[1]:
+        v += c * _sym_value(s, asg)
+    return v
+
+
+def _sym_value(sym, asg):
+    if sym[0] == 'B':
+        return asg[sym[1]]
+    if sym[0] == 'A':
+        return _apply(sym[1], _key_value(sym[2], asg), _key_value(sym[3], asg))
+    if sym[0] == 'C':
+        return _key_value(sym[2], asg) & ((1 << sym[1]) - 1)
+    raise KeyError(sym)
+
+
+def _lin_value(lin, asg):
+    return _key_value((lin.c, tuple(lin.t.items())), asg)
+
+
+class _TokState:
+    def __init__(self):
+        self.env = {}
+        self.dom = {}            # input byte -> frozenset of values still possible on this path
+        self.cons = []           # (Lin, op): data conditions over more than one byte
+        self.lcons = []          # (Lin, op): conditions that involve dst_len
+        self.writes = []         # (offset from the output base, size, source, what)
+        self.src_read = set()
+        self.trace = ()
+        self.mem = {}            # ('M', n) -> offset read from the output
+        self.returned = False
+        self.facts = {}          # decisions taken on conditions over values that cannot be enumerated (same value -> same decision later on)
+
+    def clone(self):
+        c = _TokState()
+        c.env, c.dom, c.cons, c.lcons, c.writes = dict(self.env), dict(self.dom), list(self.cons), list(self.lcons), list(self.writes)
+        c.src_read, c.trace, c.mem, c.returned = set(self.src_read), self.trace, dict(self.mem), self.returned
+        c.facts = dict(self.facts)
+        return c
+
+    def domain(self, k):
+        return self.dom.get(k, _FULL)
+
+    def assignments(self, ks, limit=70000):
+        """every assignment of the input bytes ks that the path admits (None when there are too many)"""
+        ks = sorted(ks)
+        n = 1
+        for k in ks:
+            n *= len(self.domain(k))
+        if n > limit:
+            return None
+        fixed = {k: next(iter(v)) for k, v in self.dom.items() if len(v) == 1}
+        out = []
+        for vals in itertools.product(*[sorted(self.domain(k)) for k in ks]):
+            asg = dict(fixed)
+            asg.update(zip(ks, vals))
+            ok = True
+            for d, op in self.cons:
+                try:
+                    if not _CMP[op](_lin_value(d, asg), 0):
+                        ok = False
+                        break
+                except KeyError:
+                    continue        # depends on a byte that is not fixed here: no restriction (over-approximation of the path)
+            if ok:
+                out.append(asg)
+        return out
+
+    def simp(self, lin):
+        """replace atoms whose input bytes are all fixed on this path by their value"""
+        if not lin.t:
+            return lin
+        out = None
+        for s in list(lin.t):
+            if isinstance(s, tuple) and s[0] in ('B', 'A', 'C'):
+                bs, opq = set(), set()
+                _sym_deps(s, bs, opq)
+                if not opq and all(len(self.domain(k)) == 1 for k in bs):
+                    asg = {k: next(iter(self.domain(k))) for k in bs}
+                    if out is None:
+                        out = Lin(lin.c, dict(lin.t))
+                    out.c += out.t.pop(s) * _sym_value(s, asg)
+        return out if out is not None else lin
+
+    def bounds(self, lin):
+        """(lo, hi) of a value by interval arithmetic over the atoms (None = unbounded)"""
+        lo = hi = lin.c
+        for s, c in lin.t.items():
+            a, b = self.sym_bounds(s)
+            if c < 0:
+                a, b = b, a
+            lo = None if lo is None or a is None else lo + c * a
+            hi = None if hi is None or b is None else hi + c * b
+        return lo, hi
+
+    def sym_bounds(self, s):
+        if isinstance(s, tuple) and s[0] == 'B':
+            d = self.domain(s[1])
+            return min(d), max(d)
+        if isinstance(s, tuple) and s[0] == 'M':
+            return 0, 255
+        if isinstance(s, tuple) and s[0] == 'C':
+            a, b = self.bounds(Lin.of(s[2]))
+            m = (1 << s[1]) - 1
+            return (a, b) if a is not None and b is not None and 0 <= a and b <= m else (0, m)
+        if isinstance(s, tuple) and s[0] == 'A':
+            (a1, b1), (a2, b2) = self.bounds(Lin.of(s[2])), self.bounds(Lin.of(s[3]))
+            op = s[1]
+            nonneg = a1 is not None and a2 is not None and a1 >= 0 and a2 >= 0
+            if op == '&' and nonneg:
+                cands = [x for x in (b1, b2) if x is not None]
+                return 0, (min(cands) if cands else None)
+            if op in '|^' and nonneg and b1 is not None and b2 is not None:
+                top = (1 << max(b1, b2).bit_length()) - 1
+                return (max(a1, a2) if op == '|' else 0), top
+            if op == '<<' and nonneg and a2 == b2 and b1 is not None:
+                return a1 << a2, b1 << a2
+            if op == '>>' and nonneg and a2 == b2 and b1 is not None:
+                return a1 >> a2, b1 >> a2
+            if op == '*' and nonneg and b1 is not None and b2 is not None:
+                return a1 * a2, b1 * b2
+            if op == '%' and nonneg and a2 == b2 and a2 > 0:
+                return 0, a2 - 1
+            if op == '/' and nonneg and a2 == b2 and a2 > 0 and b1 is not None:
+                return a1 // a2, b1 // a2
+        return None, None
+
+
+import operator as _operator
+_CMP = {'<': _operator.lt, '<=': _operator.le, '>': _operator.gt, '>=': _operator.ge, '==': _operator.eq, '!=': _operator.ne}
+_NEG = {'<': '>=', '<=': '>', '>': '<=', '>=': '<', '==': '!=', '!=': '=='}
+FALL, RET, BRK, CONT = 'fall', 'return', 'break', 'continue'
+
+
+class TokenExec:
+    """symbolic execution of one step of the decoder's token loop"""
+
+    def __init__(self, fdecl):
+        from ..engine.absint import c_walk
+        self.fdecl = fdecl
+        self.params = [c['name'] for c in fdecl['inner'] if c.get('kind') == 'ParmVarDecl']
+        if len(self.params) != 3:
+            raise AnalysisError('decoder: expected the parameters (input, output, output size), found %s' % self.params)
+        self.body = [c for c in fdecl['inner'] if c.get('kind') == 'CompoundStmt'][0]
+        self.steps = 0
+        self.fresh = 0
+        self.unit = self._find_unit()
+
+    # ---------------------------------------------------------------- structure
+    def _refs(self, n):
+        from ..engine.absint import c_walk
+        return {(x.get('referencedDecl') or {}).get('name') for x in c_walk(n) if x.get('kind') == 'DeclRefExpr'}
+
+    def _find_unit(self):
+        """the innermost loop that refers to both the input and the output parameter: one step = one token"""
+        from ..engine.absint import c_walk
+        best = None
+
+        def rec(n):
+            nonlocal best
+            for c in n.get('inner', []) or []:
+                if isinstance(c, dict) and c:
+                    rec(c)
+            if n.get('kind') in ('WhileStmt', 'ForStmt', 'DoStmt') and best is None:
+                r = self._refs(n)
+                if self.params[0] in r and self.params[1] in r:
+                    best = n
+        rec(self.body)
+        if best is None:
+            raise AnalysisError('decoder: no loop that reads the input and writes the output found')
+        return best
+
+    @staticmethod
+    def loop_parts(n):
+        k, inner = n['kind'], n['inner']
+        if k == 'WhileStmt':
+            return None, inner[-2], None, inner[-1], False
+        if k == 'DoStmt':
+            return None, inner[1], None, inner[0], True
+        init, _, cond, inc, body = inner
+        return init or None, cond or None, inc or None, body, False
+
+    def entry_state(self):
+        from ..engine.absint import c_walk
+        st = _TokState()
+        st.env[self.params[0]] = Lin(0, {'S': 1})
+        st.env[self.params[1]] = Lin(0, {'D': 1})
+        st.env[self.params[2]] = Lin(0, {'L': 1})
+        declared = {x.get('name') for x in c_walk(self.unit) if x.get('kind') == 'VarDecl'}
+        for nm in self._refs(self.unit):
+            if nm and nm not in st.env and nm not in declared and nm not in _COPY and nm not in _HINTS:
+                st.env[nm] = Lin(0, {('V', nm): 1})
+        return st
+
+    # ---------------------------------------------------------------- expressions
+    def tick(self):
+        self.steps += 1
+        if self.steps > 4000000:
+            raise Unmodellable('the step budget is exhausted (a loop of the token step does not terminate?)')
+
+    def new(self, kind):
+        self.fresh += 1
+        return (kind, self.fresh)
+
+    @staticmethod
+    def ctype(n):
+        t = n.get('type') or {}
+        return (t.get('desugaredQualType') or t.get('qualType') or '').replace('const ', '').strip(), (t.get('qualType') or '').replace('const ', '').strip()
+
+    def cast(self, st, v, n):
+        types = self.ctype(n)
+        if any('*' in t for t in types):
+            return v
+        bits = signed = None
+        for t in types:
+            if t in _UNSIGNED:
+                bits, signed = _UNSIGNED[t], False
+            elif t in _SIGNED:
+                bits, signed = _SIGNED[t], True
+        if bits is None:
+            if types[0] in ('void', '_Bool', 'bool'):
+                return v
+            raise Unmodellable('cast to the type %s' % types[1])
+        if bits >= 64:
+            return v
+        v = st.simp(v)
+        lo, hi = st.bounds(v)
+        top = (1 << (bits - 1)) - 1 if signed else (1 << bits) - 1
+        bot = -(1 << (bits - 1)) if signed else 0
+        if lo is not None and hi is not None and bot <= lo and hi <= top:
+            return v
+        if any(isinstance(s, str) for s in v.t):
+            raise Unmodellable('a pointer or dst_len is narrowed to %d bits' % bits)
+        if signed:
+            raise Unmodellable('a value that may not fit is converted to the signed type %s' % types[1])
+        c = v.const()
+        if c is not None:
+            return Lin(c & top)
+        return Lin(0, {('C', bits, v.key()): 1})
+
+    def nonlinear(self, st, op, a, b):
+        a, b = st.simp(a), st.simp(b)
+        ca, cb = a.const(), b.const()
+        if ca is not None and cb is not None:
+            return Lin(_apply(op, ca, cb))
+        if op == '*' and (ca is not None or cb is not None):
+            return b.scale(ca) if ca is not None else a.scale(cb)
+        for x in (a, b):
+            if any(isinstance(s, str) for s in x.t):
+                raise Unmodellable('`%s` applied to a pointer or to dst_len' % op)
+        if op == '&' and cb is not None and cb >= 0 and (cb & (cb + 1)) == 0:
+            lo, hi = st.bounds(a)
+            if lo is not None and hi is not None and 0 <= lo and hi <= cb:
+                return a            # the mask keeps every bit the value can have
+        return Lin(0, {('A', op, a.key(), b.key()): 1})
+
+    def address(self, st, n):
+        """address denoted by an lvalue expression that is not a plain variable"""
+        from ..engine.absint import c_strip
+        n = c_strip(n)
+        k = n.get('kind')
+        if k == 'ArraySubscriptExpr':
+            base, idx = self.ev(st, n['inner'][0]), self.ev(st, n['inner'][1])
+            return base.add(idx)
+        if k == 'UnaryOperator' and n.get('opcode') == '*':
+            return self.ev(st, n['inner'][0])
+        raise Unmodellable('lvalue of kind %s' % k)
+
+    def load(self, st, addr, size=1):
+        addr = st.simp(addr)
+        if addr.t.get('S') == 1 and 'D' not in addr.t:
+            off = addr.add(Lin(0, {'S': 1}), -1)
+            vs = [s for s in off.t if isinstance(s, tuple) and s[0] == 'V']
+            if len(vs) != 1 or off.t[vs[0]] != 1 or len(off.t) != 1:
+                raise Unmodellable('the input is read at %r, not at a constant distance from the input position' % off)
+            if getattr(self, 'inpos', vs[0]) != vs[0]:
+                raise Unmodellable('the input is indexed by %s and by %s' % (self.inpos[1], vs[0][1]))
+            self.inpos = vs[0]
+            if off.c < 0:
+                raise Unmodellable('the input is read before the position of the token')
+            st.src_read.add(off.c)
+            return Lin(0, {('B', off.c): 1})
+        if addr.t.get('D') == 1 and 'S' not in addr.t:
+            m = self.new('M')
+            st.mem[m] = addr.add(Lin(0, {'D': 1}), -1)
+            return Lin(0, {m: 1})
+        raise Unmodellable('memory is read at %r, which is neither in the input nor in the output' % addr)
+
+    def store(self, st, addr, size, source, what):
+        addr = st.simp(addr)
+        if addr.t.get('D') == 1 and 'S' not in addr.t:
+            st.writes.append((addr.add(Lin(0, {'D': 1}), -1), st.simp(size), source, what))
+            return
+        raise Unmodellable('memory is written at %r, which is not in the output' % addr)
+
+    def ev(self, st, n):
+        from ..engine.absint import c_name
+        self.tick()
+        k = n.get('kind')
+        if k in ('ParenExpr', 'ConstantExpr'):
+            return self.ev(st, n['inner'][-1])
+        if k in ('ImplicitCastExpr', 'CStyleCastExpr'):
+            ck = n.get('castKind')
+            sub = n['inner'][-1]
+            if ck == 'LValueToRValue':
+                s2 = sub
+                while s2.get('kind') == 'ParenExpr':
+                    s2 = s2['inner'][-1]
+                if s2.get('kind') == 'DeclRefExpr':
+                    return self.var(st, s2)
+                return self.load(st, self.address(st, s2))
+            v = self.ev(st, sub)
+            if ck == 'IntegralCast':
+                return self.cast(st, v, n)
+            if ck in ('NoOp', 'BitCast', 'ArrayToPointerDecay', 'FunctionToPointerDecay', 'IntegralToBoolean', 'ToVoid', 'NullToPointer'):
+                return v
+            raise Unmodellable('cast of kind %s' % ck)
+        if k == 'IntegerLiteral':
+            return Lin(int(n['value']))
+        if k == 'CharacterLiteral':
+            return Lin(int(n['value']))
+        if k == 'DeclRefExpr':
+            return self.var(st, n)
+        if k == 'UnaryOperator':
+            op, sub = n.get('opcode'), n['inner'][0]
+            if op in ('++', '--'):
+                nm = c_name(sub)
+                if nm is None:
+                    raise Unmodellable('%s applied to something that is not a variable' % op)
+                old = self.var(st, sub)
+                st.env[nm] = old.add(Lin(1 if op == '++' else -1))
+                return old if n.get('isPostfix') else st.env[nm]
+            if op == '*':
+                return self.load(st, self.ev(st, sub))
+            if op == '-':
+                return self.ev(st, sub).scale(-1)
+            if op == '+':
+                return self.ev(st, sub)
+            if op == '~':
+                return self.ev(st, sub).scale(-1).add(Lin(-1))
+            raise Unmodellable('unary %s in a value' % op)
+        if k == 'BinaryOperator':
+            op = n.get('opcode')
+            l, r = n['inner']
+            if op == '=':
+                v = self.ev(st, r)
+                self.assign(st, l, v)
+                return v
+            if op == ',':
+                self.ev(st, l)
+                return self.ev(st, r)
+            if op in ('+', '-'):
+                a, b = self.ev(st, l), self.ev(st, r)
+                return a.add(b, 1 if op == '+' else -1)
+            if op in _NONLIN:
+                a, b = self.ev(st, l), self.ev(st, r)
+                return self.nonlinear(st, op, a, b)
+            raise Unmodellable('the result of `%s` used as a value' % op)
+        if k == 'CompoundAssignOperator':
+            op = n.get('opcode')[:-1]
+            l, r = n['inner']
+            nm = c_name(l)
+            if nm is None:
+                raise Unmodellable('compound assignment to something that is not a variable')
+            old, rv = self.var(st, l), self.ev(st, r)
+            new = old.add(rv, 1 if op == '+' else -1) if op in '+-' else self.nonlinear(st, op, old, rv)
+            new = self.cast(st, new, l)
+            st.env[nm] = new
+            return new
+        if k == 'CallExpr':
+            callee = c_name(n['inner'][0])
+            args = n['inner'][1:]
+            if callee in _HINTS and args:
+                return self.ev(st, args[0])
+            if callee in _COPY and len(args) == 3:
+                d, s, sz = [self.ev(st, a) for a in args]
+                s = st.simp(s)
+                if s.t.get('D') == 1 and 'S' not in s.t:
+                    source = ('out', s.add(Lin(0, {'D': 1}), -1))
+                elif s.t.get('S') == 1 and 'D' not in s.t:
+                    c = st.simp(sz).const()
+                    first = self.load(st, s)
+                    source = ('in', first)
+                    if c is None:
+                        raise Unmodellable('a copy from the input of a size that is not constant')
+                    for i in range(1, c):
+                        self.load(st, s.add(Lin(i)))
+                else:
+                    raise Unmodellable('%s from %r' % (callee, s))
+                self.store(st, d, sz, source, callee)
+                return d
+            if callee == 'memset' and len(args) == 3:
+                d, v, sz = [self.ev(st, a) for a in args]
+                self.store(st, d, sz, ('value', None), callee)
+                return d
+            raise Unmodellable('call of %s()' % callee)
+        if k == 'UnaryExprOrTypeTraitExpr':
+            raise Unmodellable('sizeof')
+        raise Unmodellable('expression of kind %s' % k)
+
+    def var(self, st, n):
+        from ..engine.absint import c_name
+        nm = c_name(n)
+        if nm not in st.env:
+            raise Unmodellable('the variable %s is read before it is set' % nm)
+        return st.env[nm]
+
+    def assign(self, st, l, v):
+        from ..engine.absint import c_strip, c_name
+        nm = c_name(l) if c_strip(l).get('kind') == 'DeclRefExpr' and l.get('kind') in ('DeclRefExpr', 'ParenExpr') else None
+        if nm is not None:
+            st.env[nm] = v
+            return
+        v = st.simp(v)
+        ms = [s for s in v.t if isinstance(s, tuple) and s[0] == 'M']
+        if len(ms) == 1 and v.t[ms[0]] == 1 and len(v.t) == 1 and v.c == 0:
+            source = ('out', st.mem[ms[0]])
+        elif any(isinstance(s, tuple) and s[0] == 'B' for s in v.t):
+            source = ('in', v)
+        else:
+            source = ('value', None)
+        self.store(st, self.address(st, l), Lin(1), source, 'store')
+
+    # ---------------------------------------------------------------- conditions
+    def cond(self, st, n, in_loop=False):
+        """-> [(state, truth)]; forks on input bytes (value sets split exactly) and on dst_len (constraint recorded)"""
+        from ..engine.absint import c_name
+        self.tick()
+        k = n.get('kind')
+        if k in ('ParenExpr', 'ConstantExpr'):
+            return self.cond(st, n['inner'][-1], in_loop)
+        if k in ('ImplicitCastExpr', 'CStyleCastExpr') and n.get('castKind') in ('IntegralCast', 'NoOp', 'IntegralToBoolean') and self.is_boolean(n['inner'][-1]):
+            return self.cond(st, n['inner'][-1], in_loop)
+        if k == 'CallExpr' and c_name(n['inner'][0]) in _HINTS and len(n['inner']) > 1:
+            return self.cond(st, n['inner'][1], in_loop)
+        if k == 'UnaryOperator' and n.get('opcode') == '!':
+            return [(s, not t) for s, t in self.cond(st, n['inner'][0], in_loop)]
+        if k == 'BinaryOperator' and n.get('opcode') in ('&&', '||'):
+            out = []
+            short = n['opcode'] == '||'
+            for s, t in self.cond(st, n['inner'][0], in_loop):
+                if t == short:
+                    out.append((s, t))
+                else:
+                    out += self.cond(s, n['inner'][1], in_loop)
+            return out
+        if k == 'BinaryOperator' and n.get('opcode') in _CMP:
+            a, b = self.ev(st, n['inner'][0]), self.ev(st, n['inner'][1])
+            return self.decide(st, a.add(b, -1), n['opcode'], in_loop)
+        return self.decide(st, self.ev(st, n), '!=', in_loop)
+
+    def is_boolean(self, n):
+        from ..engine.absint import c_name
+        while n.get('kind') in ('ParenExpr', 'ConstantExpr'):
+            n = n['inner'][-1]
+        return (n.get('kind') == 'BinaryOperator' and (n.get('opcode') in _CMP or n.get('opcode') in ('&&', '||'))) or \
+               (n.get('kind') == 'UnaryOperator' and n.get('opcode') == '!') or (n.get('kind') == 'CallExpr' and c_name(n['inner'][0]) in _HINTS)
+
+    def decide(self, st, d, op, in_loop):
+        d = st.simp(d)
+        c = d.const()
+        if c is not None:
+            return [(st, _CMP[op](c, 0))]
+        if 'D' in d.t or 'S' in d.t:
+            raise Unmodellable('a condition on a pointer value (%r %s 0)' % (d, op))
+        if 'L' in d.t:
+            a, b = st.clone(), st
+            a.lcons.append((d, op))
+            b.lcons.append((d, _NEG[op]))
+            a.trace += (('len', True),)
+            b.trace += (('len', False),)
+            return [(a, True), (b, False)]
+        bs, opq = _deps(d)
+        if opq:
+            if in_loop:
+                raise Unmodellable('a loop inside the token step runs while %r %s 0, which depends on %s' % (d, op, sorted(map(repr, opq))[0]))
+            for (k2, op2), t2 in st.facts.items():
+                if k2 == d.key() and op2 in (op, _NEG[op]):
+                    return [(st, t2 if op2 == op else not t2)]
+            a, b = st.clone(), st
+            a.facts[(d.key(), op)] = True
+            b.facts[(d.key(), op)] = False
+            a.trace += (('state', repr(d), op, True),)
+            b.trace += (('state', repr(d), op, False),)
+            return [(a, True), (b, False)]
+        lo, hi = st.bounds(d)
+        for t in (True, False):
+            o = op if t else _NEG[op]
+            if (o == '>=' and lo is not None and lo >= 0) or (o == '>' and lo is not None and lo > 0) or (o == '<=' and hi is not None and hi <= 0) or \
+                    (o == '<' and hi is not None and hi < 0) or (o == '!=' and ((lo is not None and lo > 0) or (hi is not None and hi < 0))):
+                return [(st, t)]
+        asgs = st.assignments(bs, 5000 if in_loop else 70000)
+        if asgs is None:
+            if in_loop:
+                raise Unmodellable('a loop condition over %d input bytes with too many combinations (%r %s 0)' % (len(bs), d, op))
+            # both outcomes are followed, the condition is kept for the enumerations at the end of the path (an over-approximation of the paths)
+            a, b = st.clone(), st
+            a.cons.append((d, op))
+            b.cons.append((d, _NEG[op]))
+            a.trace += (('data', True),)
+            b.trace += (('data', False),)
+            return [(a, True), (b, False)]
+        if in_loop:
+            # concretise: one state per value of the bytes the loop condition depends on
+            out = []
+            for asg in asgs:
+                s2 = st.clone()
+                for kk in bs:
+                    s2.dom[kk] = frozenset([asg[kk]])
+                out.append((s2, _CMP[op](_lin_value(d, asg), 0)))
+            return out
+        yes = [asg for asg in asgs if _CMP[op](_lin_value(d, asg), 0)]
+        if len(yes) == len(asgs):
+            return [(st, True)]
+        if not yes:
+            return [(st, False)]
+        a, b = st.clone(), st
+        if len(bs) == 1:
+            kk = next(iter(bs))
+            ys = frozenset(asg[kk] for asg in yes)
+            a.dom[kk] = ys
+            b.dom[kk] = frozenset(st.domain(kk)) - ys
+        else:
+            a.cons.append((d, op))
+            b.cons.append((d, _NEG[op]))
+        a.trace += (('data', True),)
+        b.trace += (('data', False),)
+        return [(a, True), (b, False)]
+
+    # ---------------------------------------------------------------- statements
+    def block(self, stmts, st):
+        live, done = [st], []
+        for s in stmts:
+            nxt = []
+            for cur in live:
+                for s2, status in self.stmt(s, cur):
+                    (nxt if status == FALL else done).append((s2, status))
+            live = [x for x, _ in nxt]
+            if not live:
+                break
+        return [(x, FALL) for x in live] + done
+
+    def stmt(self, n, st):
+        self.tick()
+        k = n.get('kind')
+        if k == 'CompoundStmt':
+            return self.block([c for c in n.get('inner', []) if c], st)
+        if k == 'NullStmt':
+            return [(st, FALL)]
+        if k == 'DeclStmt':
+            for d in n.get('inner', []):
+                if d.get('kind') == 'VarDecl':
+                    init = [c for c in d.get('inner', []) if isinstance(c, dict) and c.get('kind')]
+                    st.env[d['name']] = self.ev(st, init[-1]) if init else Lin(0, {self.new('U'): 1})
+                else:
+                    raise Unmodellable('declaration of kind %s' % d.get('kind'))
+            return [(st, FALL)]
+        if k == 'IfStmt':
+            inner = n['inner']
+            out = []
+            for s2, t in self.cond(st, inner[0]):
+                if t:
+                    out += self.stmt(inner[1], s2)
+                elif len(inner) > 2 and inner[2]:
+                    out += self.stmt(inner[2], s2)
+                else:
+                    out.append((s2, FALL))
+            return out
+        if k == 'ReturnStmt':
+            st.returned = True
+            return [(st, RET)]
+        if k == 'BreakStmt':
+            return [(st, BRK)]
+        if k == 'ContinueStmt':
+            return [(st, CONT)]
+        if k in ('WhileStmt', 'ForStmt', 'DoStmt'):
+            return self.loop(n, st)
+        if k in ('GotoStmt', 'SwitchStmt', 'LabelStmt'):
+            raise Unmodellable('%s inside the token step' % k)
+        self.ev(st, n)
+        return [(st, FALL)]
+
+    def loop(self, n, st):
+        init, cond, inc, body, post_test = self.loop_parts(n)
+        if init:
+            if init.get('kind') == 'DeclStmt':
+                self.stmt(init, st)
+            else:
+                self.ev(st, init)
+        out, live, first = [], [st], True
+        rounds = 0
+        while live:
+            rounds += 1
+            if rounds > 5000:
+                raise Unmodellable('a loop inside the token step does not terminate')
+            entering = []
+            for cur in live:
+                if first and post_test or cond is None:
+                    entering.append(cur)
+                    continue
+                for s2, t in self.cond(cur, cond, in_loop=True):
+                    if t:
+                        entering.append(s2)
+                    else:
+                        out.append((s2, FALL))
+            first = False
+            live = []
+            for cur in entering:
+                for s2, status in self.stmt(body, cur):
+                    if status in (FALL, CONT):
+                        if inc:
+                            self.ev(s2, inc)
+                        live.append(s2)
+                    elif status == BRK:
+                        out.append((s2, FALL))
+                    else:
+                        out.append((s2, status))
+            if len(live) > 20000:
+                raise Unmodellable('too many states in a loop inside the token step')
+        return out
+
+    def run(self):
+        """-> final states of one step (entry: start of the body of the token loop)"""
+        st = self.entry_state()
+        init, cond, inc, body, post_test = self.loop_parts(self.unit)
+        finals = []
+        for s2, status in self.stmt(body, st):
+            if status in (FALL, CONT) and inc:
+                self.ev(s2, inc)
+            if status == BRK:
+                raise Unmodellable('the token step leaves its loop with `break`')
+            s2.exit = RET if status == RET else FALL
+            finals.append(s2)
+        return finals
+
+
+_DECODER = '__pyx_lzss_decompress'
+_PC_DECODER = '''
+static size_t __pyx_lzss_decompress_sa_pc(const uint8_t* src, uint8_t* dst, size_t dst_len) {
+    size_t pos = 0, out_pos = 0;
+    while (1) {
+        uint32_t flags = src[pos++] | 0xFF00;
+        while (flags & 0x100) {
+            if (flags & 1) {
+                dst[out_pos++] = src[pos++];
+            } else {
+                uint32_t tok = src[pos++], off = tok >> 4, n = (tok & 0x0F) + 3;
+                size_t from = out_pos - off - n;
+                if (out_pos + n < dst_len) {
+                    uint32_t k;
+                    for (k = 0; k < n; k += 8) memcpy(dst + out_pos + k, dst + from + k, 8);
+                } else {
+                    memcpy(dst + out_pos, dst + from, n);
+                }
+                out_pos += n;
+            }
+            if (out_pos >= dst_len) return pos;
+            flags >>= 1;
+        }
+    }
+}
+'''
+
+_OK_DECODER = _PC_DECODER.replace('_sa_pc', '_sa_ok').replace('if (out_pos + n < dst_len) {', 'if (out_pos + n + 8 <= dst_len && off + n >= 8) {')
+
+
+def _decoder_asts(ctx):
+    """{function name: clang FunctionDecl} of the decoder shipped in StringTools.c and of the embedded positive example (one clang process)"""
+    def build():
+        import json, os, subprocess, tempfile
+        decl = [d for d in ctx.cat.decls.get(_DECODER, []) if d.kind == 'func']
+        if not decl:
+            raise AnalysisError('%s not found' % _DECODER)
+        head = 'static size_t %s(%s) ' % (_DECODER, ', '.join(decl[0].params))
+        text = ('#include <stdint.h>\n#include <string.h>\n#include <stddef.h>\n#define CYTHON_UNUSED\n#define CYTHON_SMALL_CODE\n' + head + decl[0].body + '\n' + _PC_DECODER + _OK_DECODER)
+        with tempfile.TemporaryDirectory(prefix='sa_clang_') as d:
+            p = os.path.join(d, 't.c')
+            with open(p, 'w') as f:
+                f.write(text)
+            try:
+                res = subprocess.run(['clang', '-fsyntax-only', '-w', '-Xclang', '-ast-dump=json', '-Xclang', '-ast-dump-filter=' + _DECODER, p],
+                                     stdout=subprocess.PIPE, stderr=subprocess.PIPE, text=True, timeout=60)
+            except (OSError, subprocess.TimeoutExpired) as e:
+                raise AnalysisError('clang not runnable: %s' % e)
+            if res.returncode != 0:
+                raise AnalysisError('clang cannot parse the decoder %s: %s' % (_DECODER, res.stderr[-400:]))
+        dec, i, found, txt = json.JSONDecoder(), 0, {}, res.stdout
+        while i < len(txt):
+            j = txt.find('{', i)
+            if j < 0:
+                break
+            try:
+                d, k = dec.raw_decode(txt, j)
+            except ValueError:
+                i = j + 1
+                continue
+            i = k
+            if d.get('kind') == 'FunctionDecl' and any(c.get('kind') == 'CompoundStmt' for c in d.get('inner', [])):
+                found[d.get('name')] = d
+        if _DECODER not in found or _DECODER + '_sa_pc' not in found or _DECODER + '_sa_ok' not in found:
+            raise AnalysisError('function %s not found in clang AST' % _DECODER)
+        return found
+    return ctx.memo('sC12.clang_decoders', build)
+
+
+def _decoder_ast(ctx):
+    return _decoder_asts(ctx)[_DECODER]
+
+
+def _r_range(rcons, asg, adv):
+    """smallest / largest room R = dst_len - out_pos the path admits for this token (R >= advance: the stream is the compressor's)"""
+    lo, hi, ne = adv, None, set()
+    for e, op in rcons:          # meaning: R op e
+        b = _lin_value(e, asg)
+        if op == '<':
+            hi = b - 1 if hi is None else min(hi, b - 1)
+        elif op == '<=':
+            hi = b if hi is None else min(hi, b)
+        elif op == '>':
+            lo = max(lo, b + 1)
+        elif op == '>=':
+            lo = max(lo, b)
+        elif op == '==':
+            lo = max(lo, b)
+            hi = b if hi is None else min(hi, b)
+        else:
+            ne.add(b)
+    while lo in ne:
+        lo += 1
+    while hi is not None and hi in ne:
+        hi -= 1
+    return lo, hi
+
+
+_FLIP = {'<': '>', '<=': '>=', '>': '<', '>=': '<=', '==': '==', '!=': '!='}
+
+
+def token_footprint(fdecl, paths=None):
+    """-> (classes, problems): classes = {class key: set of clauses evaluated}; problems = [(clause, token kind, message)] (first witness per clause and kind).
+    With paths=[]: one (kind, advance, stores relative to the output position, exit) is appended per path."""
+    ex = TokenExec(fdecl)
+    finals = ex.run()
+    if not finals:
+        raise Unmodellable('the token step has no path')
+    # the output position: the one start-of-step value the store addresses are relative to
+    psyms = set()
+    for st in finals:
+        for off, n, src, what in st.writes:
+            psyms |= {s for s in off.t if isinstance(s, tuple) and s[0] == 'V'}
+    if not psyms:
+        for st in finals:
+            for d, op in st.lcons:
+                psyms |= {s for s in d.t if isinstance(s, tuple) and s[0] == 'V'}
+    if len(psyms) != 1:
+        raise Unmodellable('the output position is not one variable (the stores of a token are relative to %s)' % (sorted(s[1] for s in psyms) or 'nothing'))
+    P = next(iter(psyms))
+    VP = Lin(0, {P: 1})
+    classes, problems, seen = {}, [], set()
+
+    def problem(clause, kind, msg):
+        if (clause, kind) not in seen:
+            seen.add((clause, kind))
+            problems.append((clause, kind, msg))
+
+    def pure(lin, what):
+        bs, opq = _deps(lin)
+        if opq:
+            raise Unmodellable('%s is %r, which depends on %s' % (what, lin, sorted(map(repr, opq))[0]))
+        return bs
+
+    for st in finals:
+        kind = 'literal' if any(src[0] == 'in' for _, _, src, _ in st.writes) else 'back-reference'
+        label = '%s token of %d input byte(s)' % (kind, len(st.src_read))
+        clauses = classes.setdefault((kind, len(st.src_read), st.trace, st.exit), set())
+        if P[1] not in st.env:
+            raise Unmodellable('the output position %s is not set at the end of the step' % P[1])
+        adv = st.simp(st.env[P[1]].add(VP, -1))
+        deps = set(pure(adv, 'the advance of the output position'))
+        rcons = []
+        for d, op in st.lcons:
+            cl, cp = d.t.get('L', 0), d.t.get(P, 0)
+            if cl + cp != 0 or abs(cl) != 1:
+                raise Unmodellable('a condition compares dst_len with something that is not a distance from the output position (%r %s 0)' % (d, op))
+            e = Lin(d.c, {s: v for s, v in d.t.items() if s not in ('L', P)})
+            e = st.simp(e)
+            deps |= pure(e, 'a bound compared with dst_len')
+            # d = e + cl * R  op 0
+            rcons.append((e.scale(-1), op) if cl == 1 else (e, _FLIP[op]))
+        ws = []
+        for off, n, src, what in st.writes:
+            rel = st.simp(off.add(VP, -1))
+            n = st.simp(n)
+            deps |= pure(rel, 'the offset of a store') | pure(n, 'the size of a copy')
+            ws.append((rel, n, src, what))
+        if paths is not None:
+            paths.append((kind, adv, ws, st.exit))
+        asgs = st.assignments(deps)
+        if asgs is None:
+            raise Unmodellable('the footprint of a %s depends on %d input bytes: too many combinations' % (label, len(deps)))
+        clauses |= {'write-extent', 'coverage', 'stop'}
+        for asg in asgs:
+            a = _lin_value(adv, asg)
+            if a < 1:
+                problem('advance', kind, 'a %s advances the output position by %d: the decoder makes no progress / steps back' % (label, a))
+                continue
+            lo_r, hi_r = _r_range(rcons, asg, a)
+            if hi_r is not None and lo_r > hi_r:
+                continue                # this path is not taken for these bytes whatever room is left
+            if st.exit == RET and (hi_r is None or hi_r > a):
+                problem('stop', kind, 'after a %s that advances the output by %d the decoder returns although up to %s bytes of room were left (%d would be exactly full): '
+                        'it stops before the output is complete' % (label, a, 'any number of' if hi_r is None else hi_r, a))
+            if st.exit != RET and lo_r == a:
+                problem('stop', kind, 'after a %s that fills the output exactly (advance %d = room %d) the decoder does not return: the next token, or padding bits of the '
+                        'last flag byte, are decoded past the end of the output buffer and of the input' % (label, a, a))
+            covered = []
+            for rel, n, src, what in ws:
+                wlo, wn = _lin_value(rel, asg), _lin_value(n, asg)
+                if wn < 0:
+                    problem('write-extent', kind, 'a %s makes a %s of %d bytes (a negative size is a huge size_t)' % (label, what, wn))
+                    continue
+                if wn == 0:
+                    continue
+                covered.append((wlo, wlo + wn))
+                if wlo < 0:
+                    problem('write-extent', kind, 'a %s (advance %d) makes a %s at %d bytes before the output position: bytes that are already decoded are overwritten' % (label, a, what, -wlo))
+                elif wlo + wn > a and wlo + wn > lo_r:
+                    problem('write-extent', kind, 'a %s that advances the output by %d makes a %s of %d byte(s) at offset %d from the output position, i.e. up to offset %d, while as '
+                            'little as %d byte(s) of the output buffer are left on this path: %d byte(s) are written past the end of the buffer (nothing that dominates the %s bounds it by dst_len)'
+                            % (label, a, what, wn, wlo, wlo + wn, lo_r, wlo + wn - lo_r, what))
+            pos = 0
+            for wlo, whi in sorted(covered):
+                if wlo > pos:
+                    break
+                pos = max(pos, whi)
+            if pos < a:
+                problem('coverage', kind, 'a %s advances the output by %d but its stores cover only the first %d byte(s) of that slice: the rest of the result is never written' % (label, a, max(pos, 0)))
+        # copies out of the output: one displacement, source below the destination
+        disps = {}
+        for off, n, src, what in st.writes:
+            if src[0] != 'out':
+                continue
+            clauses |= {'read-source', 'displacement'}
+            disp = st.simp(src[1].add(off, -1))
+            disps.setdefault(disp.key(), disp)
+            n = st.simp(n)
+            # memcpy: source and destination must not overlap at all.  memmove / single stores: the bytes that land in the token's slice must come from below the destination
+            us = [st.simp(disp.add(n))]
+            if what not in ('memcpy', '__builtin_memcpy'):
+                us.append(st.simp(disp.add(adv).add(off.add(VP, -1), -1)))
+            if any(hi is not None and hi <= 0 for lo, hi in map(st.bounds, us)):
+                continue
+            bs = set()
+            for u in us:
+                b2, opq = _deps(u)
+                if opq:
+                    raise Unmodellable('the source of a copy ends at %r relative to its destination, which depends on %s' % (u, sorted(map(repr, opq))[0]))
+                bs |= b2
+            uas = st.assignments(bs, 300000)
+            if uas is None:
+                raise Unmodellable('the distance between source and destination of a copy depends on %d input bytes: too many combinations' % len(bs))
+            for asg in uas:
+                vs = [_lin_value(u, asg) for u in us]
+                if all(v > 0 for v in vs):
+                    nn = _lin_value(n, asg)
+                    problem('read-source', kind, 'a %s makes a %s of %d byte(s) whose source starts %d byte(s) below its destination: the last %d byte(s) it reads are at or above the '
+                            'destination (not yet decoded%s), e.g. for the token bytes %s' % (
+                                label, what, nn, nn - vs[0], vs[0], ' / overlapping, undefined for memcpy' if len(us) == 1 else '',
+                                ' '.join('%02X' % asg[k] if k in asg else '..' for k in sorted(st.src_read))))
+                    break
+        if len(disps) > 1:
+            ds = sorted(disps.values(), key=repr)
+            problem('displacement', kind, 'the copies of one %s use different distances between source and destination (%r and %r): parts of the match are taken from the wrong place' % (label, ds[0], ds[1]))
+    return classes, problems
+
+
+def rule_extent(ctx):
+    r = Rule('C12-EXTENT', 'memory footprint of one decoder token, for every token the format can express and every amount of room left in the output: stores stay inside the '
+             "token's slice of the output or are bounded by dst_len through the conditions that dominate them, they cover the slice, copies read below their destination with one "
+             'displacement, and the step returns exactly when the output is full (symbolic execution of the token step on clang\'s AST; copy loops run for every value of the length bytes)', floor=30)
+    asts = _decoder_asts(ctx)
+    decl = [d for d in ctx.cat.decls.get(_DECODER, []) if d.kind == 'func']
+    try:
+        classes, problems = token_footprint(asts[_DECODER])
+    except Unmodellable as x:
+        raise AnalysisError('C12-EXTENT cannot model the token step of %s: %s' % (_DECODER, x))
+    n = 0
+    for (kind, nbytes, trace, ex), clauses in sorted(classes.items(), key=repr):
+        n += 1
+        for c in sorted(clauses):
+            r.inst('path%d:%s' % (n, c), sample='%s of %d input byte(s), step %s: %s' % (kind, nbytes, 'returns' if ex == RET else 'continues', c))
+    kinds = {k[0] for k in classes}
+    if kinds != {'literal', 'back-reference'}:
+        raise AnalysisError('C12-EXTENT: the token step of %s has paths for %s only (expected literal and back-reference tokens)' % (_DECODER, sorted(kinds)))
+    for clause, kind, msg in problems:
+        r.violate('StringTools.%s:%s:%s' % (_DECODER, clause, kind), STC, decl[0].line, '%s: %s' % (_DECODER, msg))
+    # positive control: a "wild copy" guarded only for the last token is reported, one whose guards leave room for the surplus (and keep source and destination apart) is not
+    try:
+        _, bad = token_footprint(asts[_DECODER + '_sa_pc'])
+        _, good = token_footprint(asts[_DECODER + '_sa_ok'])
+    except Unmodellable as x:
+        raise AnalysisError('C12-EXTENT: embedded examples cannot be modelled: %s' % x)
+    r.positive_control(any(c == 'write-extent' for c, _, _ in bad) and any(c == 'read-source' for c, _, _ in bad) and not good,
+                       'a copy in blocks of 8 guarded by `out_pos + n < dst_len` writes past the buffer; guarded by `out_pos + n + 8 <= dst_len && off + n >= 8` it is accepted')
     return r
